@@ -27,7 +27,11 @@ PROP = {
             "registered to post further handlers when they run (chains), PollOne on the loop's locked OS thread; observations: which "
             "handlers ran in which order, on which OS thread, Pending()/Posted() after every call; every sequence of 5 (7) steps over "
             "{post by 0, post by 1, nest, poll} exhaustively; non-trivial = a batch of several handlers, a nested Post, a queue of "
-            "several, an idle poll; direct mode: 8 (16) goroutines x 200 (400) posts with 0-3 nested generations against the running loop",
+            "several, an idle poll; direct mode: 8 (16) goroutines x 200 (400) posts with 0-3 nested generations against the running loop "
+            "(every handler exactly once, on the loop thread, per-poster order, Pending() counts the running handler, counters zero at "
+            "quiescence), a ping-pong stage in which every Post finds the loop blocked in its wait, and the library's own hand-off: "
+            "AsyncHandshake (conforming mock server / refused dial) with the loop stopped - until the queued completion is dispatched the "
+            "stream is untouched and the callback has not run; it then runs on the loop thread",
     "trusted_base": LEAN_TB + [TRANSLATOR_TB + " (access table: every access to poller.posts / poller.pending with lock-held and "
                                "atomic flags; statement order of Post, dispatch, Posted, Pending)",
                                "Sonic/Model/Post.lean: hand-written interleaving model whose step order is checked against the extracted "
